@@ -53,13 +53,13 @@ class level1:
     def is_the_strongest(cls, hole_cards, board_cards, r):
         return G.forall(cands1(cls, hole_cards, board_cards), lambda c: not_beaten_by(cls, r, c))
 
-    def best_so_far(cls, xs, k, max_hand):
+    def best_so_far(cls, xs, k, acc):
         """loop invariant after k candidates: no hand yet iff none of them was valid; else the running maximum is one of them,
         valid, and none of them beats it"""
-        if max_hand is None:
+        if acc is None:
             return G.forall_before(xs, k, lambda c: not valid(cls, c))
-        return (G.exists_before(xs, k, lambda c: max_hand.cards == c and valid(cls, c))
-                and G.forall_before(xs, k, lambda c: not_beaten_by(cls, max_hand, c)))
+        return (G.exists_before(xs, k, lambda c: acc.cards == c and valid(cls, c))
+                and G.forall_before(xs, k, lambda c: not_beaten_by(cls, acc, c)))
 
 
 # ---- level 2: all hole cards with board_card_count of the board ----------------------------------------------------------
@@ -87,11 +87,11 @@ class level2:
     def is_the_strongest(cls, hole_cards, board_cards, r):
         return G.forall(rows2(cls, board_cards), lambda b: G.forall(cands1(cls, hole_cards, b), lambda c: not_beaten_by(cls, r, c)))
 
-    def best_so_far(cls, hole_cards, xs, k, max_hand):
-        if max_hand is None:
+    def best_so_far(cls, hole_cards, xs, k, acc):
+        if acc is None:
             return G.forall_before(xs, k, lambda b: G.forall(cands1(cls, hole_cards, b), lambda c: not valid(cls, c)))
-        return (G.exists_before(xs, k, lambda b: G.exists(cands1(cls, hole_cards, b), lambda c: max_hand.cards == c and valid(cls, c)))
-                and G.forall_before(xs, k, lambda b: G.forall(cands1(cls, hole_cards, b), lambda c: not_beaten_by(cls, max_hand, c))))
+        return (G.exists_before(xs, k, lambda b: G.exists(cands1(cls, hole_cards, b), lambda c: acc.cards == c and valid(cls, c)))
+                and G.forall_before(xs, k, lambda b: G.forall(cands1(cls, hole_cards, b), lambda c: not_beaten_by(cls, acc, c))))
 
 
 # ---- level 3: hole_card_count of the hole cards with board_card_count of the board ------------------------------------------
@@ -122,22 +122,64 @@ class level3:
         return G.forall(rows3(cls, hole_cards), lambda h: G.forall(rows2(cls, board_cards), lambda b: G.forall(
             cands1(cls, h, b), lambda c: not_beaten_by(cls, r, c))))
 
-    def best_so_far(cls, board_cards, xs, k, max_hand):
-        if max_hand is None:
+    def best_so_far(cls, board_cards, xs, k, acc):
+        if acc is None:
             return G.forall_before(xs, k, lambda h: G.forall(rows2(cls, board_cards), lambda b: G.forall(
                 cands1(cls, h, b), lambda c: not valid(cls, c))))
         return (G.exists_before(xs, k, lambda h: G.exists(rows2(cls, board_cards), lambda b: G.exists(
-                    cands1(cls, h, b), lambda c: max_hand.cards == c and valid(cls, c))))
+                    cands1(cls, h, b), lambda c: acc.cards == c and valid(cls, c))))
                 and G.forall_before(xs, k, lambda h: G.forall(rows2(cls, board_cards), lambda b: G.forall(
-                    cands1(cls, h, b), lambda c: not_beaten_by(cls, max_hand, c)))))
+                    cands1(cls, h, b), lambda c: not_beaten_by(cls, acc, c)))))
 
 
-LEVELS = {'level1': level1, 'level2': level2, 'level3': level3}
+# ---- badugi: the largest size that has a valid hand, then the best of that size ------------------------------------------------
+def none_valid_of_size(cls, cards, size):
+    return G.forall(G.combos(cards, size), lambda c: not valid(cls, c))
+
+
+def none_valid_above(cls, cards, size):
+    return all(none_valid_of_size(cls, cards, s2) for s2 in range(size + 1, 5))
+
+
+def best_of_size(cls, cards, size, r):
+    return (G.exists(G.combos(cards, size), lambda c: r.cards == c and valid(cls, c))
+            and G.forall(G.combos(cards, size), lambda c: not_beaten_by(cls, r, c)))
+
+
+@contract('pokerkit.hands.BadugiHand.from_game', 'C05')
+class badugi:
+    label = 'D∞'
+    argnames = ('cls', 'hole_cards', 'board_cards')
+    raises = {ValueError: 'no_valid_candidate'}
+    raises_split = True
+    loop_invariants = (None, 'best_so_far')      # the outer loop runs over the concrete sizes 4, 3, 2, 1 and is unrolled
+
+    def no_valid_candidate(cls, hole_cards, board_cards):
+        return none_valid_above(cls, G.chained(hole_cards, board_cards), 0)
+
+    @P('C05', 'the evaluated hand is the best valid one of the largest size that has a valid hand (1 to 4 cards)')
+    def is_the_best_of_the_largest_size(cls, hole_cards, board_cards, r):
+        cards = G.chained(hole_cards, board_cards)
+        return any(best_of_size(cls, cards, size, r) and none_valid_above(cls, cards, size) for size in range(1, 5))
+
+    def best_so_far(cls, hole_cards, board_cards, xs, xs_size, k, acc):
+        """invariant of the inner loop in the pass over the subsets of one size (xs_size), after k of them: no larger size has a valid hand;
+        no hand yet iff none of the k was valid; else the running maximum is one of them, valid, not beaten by any of them"""
+        if not none_valid_above(cls, G.chained(hole_cards, board_cards), xs_size):
+            return False
+        if acc is None:
+            return G.forall_before(xs, k, lambda c: not valid(cls, c))
+        return (G.exists_before(xs, k, lambda c: acc.cards == c and valid(cls, c))
+                and G.forall_before(xs, k, lambda c: not_beaten_by(cls, acc, c)))
+
+
+LEVELS = {'level1': level1, 'level2': level2, 'level3': level3, 'badugi': badugi}
 # the classes whose from_game is each level's real function (one task per class: `low`, `card_count`, ... are the class's own)
 CLASSES = {
     'level1': ['StandardHighHand', 'StandardLowHand', 'ShortDeckHoldemHand', 'EightOrBetterLowHand', 'RegularLowHand'],
     'level2': ['GreekHoldemHand'],
     'level3': ['OmahaHoldemHand', 'OmahaEightOrBetterLowHand'],
+    'badugi': ['BadugiHand', 'StandardBadugiHand'],
 }
 
 
@@ -159,6 +201,8 @@ def _native_case(model, ob):
             bd = rng.randint(0, min(5, 8 - h))
         elif kind == 'greek':
             h, bd = 2, rng.randint(0, 5)
+        elif kind == 'badugi':
+            h, bd = rng.randint(0, 6), 0
         else:
             h, bd = rng.randint(0, 5), rng.randint(0, 5)
         cs = rng.sample(deck, h + bd)
